@@ -63,6 +63,9 @@ class Tracer:
             self.ev("create", os.fspath(path))
             f = open(path, mode, *a, **kw)
             return PFile(self, f, os.fspath(path))
+        # opening for READING is an event too: it can fail transiently (EIO, EMFILE), and the operation must then not go
+        # on to rewrite a file it could not read
+        self.ev("readopen", os.fspath(path))
         return open(path, mode, *a, **kw)
 
     def mkstemp(self, *a, **kw):
@@ -138,11 +141,13 @@ def traced(hj, tr):
     tf_proxy = types.SimpleNamespace(**{n: getattr(real_tempfile, n) for n in dir(real_tempfile) if not n.startswith("__")})
     tf_proxy.mkstemp = tr.mkstemp
     hj.os, hj.tempfile, hj.open = os_proxy, tf_proxy, tr.open
+    hj.xlj.open = tr.open  # LazyJSON(path) opens the file itself
     try:
         yield
     finally:
         hj.os, hj.tempfile = real_os, real_tempfile
         del hj.open
+        del hj.xlj.open
 
 
 # ------------------------------------------------------------------ scenarios
@@ -273,8 +278,8 @@ def to_model(events, files):
     ids = {f: i + 1 for i, f in enumerate(files)}
     out = []
     for kind, path, extra in events:
-        if kind.startswith("failed-"):
-            continue
+        if kind.startswith("failed-") or kind == "readopen":
+            continue  # (reads are not part of the write discipline the Lean trace model judges)
         pid = ids.setdefault(path, len(ids) + 1)
         if kind == "write":
             out.append([Sym("write"), pid, list(extra)])
@@ -346,7 +351,8 @@ def scenario(ctx, hj, name, variant, name_stream, exhaustive_partials):
             root, files2, old2, _ = run_traced(hj, name, variant, crash_at=k, partial=j)
             try:
                 # (a) the model's crash semantics against the real disk, byte for byte, for the protected files
-                pred = dict((p, bytes(b)) for p, b in ctx.driver.call("c13.crash", d0, trace, k, j or 0))
+                mk = sum(1 for e in events[:k] if not (e[0].startswith("failed-") or e[0] == "readopen"))  # index in the model's trace
+                pred = dict((p, bytes(b)) for p, b in ctx.driver.call("c13.crash", d0, trace, mk, j or 0))
                 for f, f2 in zip(files, files2):
                     real = open(f2, "rb").read() if os.path.exists(f2) else None
                     if real != pred.get(ids[f]):
@@ -392,10 +398,61 @@ def scenario(ctx, hj, name, variant, name_stream, exhaustive_partials):
             if bad:
                 case = {"stream": name_stream, "scenario": name, "variant": variant, "failing_event": k, "event": [events[k][0], short(events[k][1])]}
                 key = "unlock-rewrites-in-place" if name == "unlock" and not disc else None
+                if key is None and name in ("flush", "flush-at-exit") and events[k][0] == "readopen":
+                    key = "flush-read-error-overwrites-history"
                 ctx.spec_failure(case, {"damaged": [(short(f), w) for f, w in bad]}, f"an OSError from one file-system call during `{name}` damaged a saved history file", key)
                 break
         finally:
             shutil.rmtree(root, ignore_errors=True)
+
+
+def stream_disk_full(ctx, hj, name="disk-full-rlimit"):
+    """the same scenarios with a REAL short-write condition: RLIMIT_FSIZE in a forked child (SIGXFSZ ignored), so that a
+    write() returns a short count or EFBIG exactly as on a full disk / over quota; nothing is traced or proxied"""
+    import resource
+    import signal
+
+    ctx.stream_rule(
+        name,
+        "scenarios flush / flush-at-exit / delete / erasedups / unlock run untraced in a forked child under RLIMIT_FSIZE = L for L "
+        "in {0, 1, 64, 200, 500, n/2, n-1} (n = size of the largest file the operation writes), SIGXFSZ ignored: write() returns a "
+        "short count or EFBIG as on a full disk; afterwards every saved history file must be loadable with its old or its new "
+        "commands; non-trivial = every (scenario, limit)",
+    )
+    for sc in SCENARIOS:
+        for v in ctx.n([0, 1], [0, 1, 3, 30]):
+            root, files, old, _ = run_traced(hj, sc, v)
+            new_inps = {f: load_inps(f) for f in files}
+            n = max([os.path.getsize(f) for f in files if os.path.exists(f)] + [1])
+            shutil.rmtree(root, ignore_errors=True)
+            for lim in sorted({0, 1, 64, 200, 500, n // 2, n - 1}):
+                root = str(common.scratch_root() / f"c13-{uuid.uuid4().hex[:8]}")
+                os.makedirs(root)
+                op, files2 = setup_scenario(hj, sc, root, v)
+                old2 = {f: open(f, "rb").read() for f in files2}
+                pid = os.fork()
+                if pid == 0:
+                    try:
+                        signal.signal(signal.SIGXFSZ, signal.SIG_IGN)
+                        resource.setrlimit(resource.RLIMIT_FSIZE, (lim, resource.getrlimit(resource.RLIMIT_FSIZE)[1]))
+                        with contextlib.redirect_stdout(io.StringIO()), contextlib.redirect_stderr(io.StringIO()):
+                            op()
+                    except BaseException:  # noqa: BLE001
+                        pass
+                    finally:
+                        os._exit(0)
+                os.waitpid(pid, 0)
+                try:
+                    bad = judge(files2, old2, {f2: new_inps[f] for f, f2 in zip(files, files2)})
+                    ctx.case(name, (sc, v, lim), True, {"scenario": sc, "variant": v, "limit": lim} if lim in (0, 64) else None)
+                    ctx.count("disk-full-points")
+                    if bad:
+                        ctx.spec_failure({"stream": name, "scenario": sc, "variant": v, "file_size_limit": lim},
+                                         {"damaged": [(short(f), w) for f, w in bad]},
+                                         f"a short write (file size limit {lim}) during `{sc}` damaged a saved history file", None)
+                        break
+                finally:
+                    shutil.rmtree(root, ignore_errors=True)
 
 
 def stream_sqlite(ctx, n, name="sqlite-kill"):
@@ -557,7 +614,10 @@ def replay_known(ctx, hj):
         root, files, old, events = run_traced(hj, w["scenario"], w["variant"])
         new_inps = {x: load_inps(x) for x in files}
         shutil.rmtree(root, ignore_errors=True)
-        root, files2, old2, _ = run_traced(hj, w["scenario"], w["variant"], crash_at=w["crash_before_event"], partial=w["partial_bytes"])
+        if "failing_event" in w:
+            root, files2, old2, _ = run_traced(hj, w["scenario"], w["variant"], fail_at=w["failing_event"])
+        else:
+            root, files2, old2, _ = run_traced(hj, w["scenario"], w["variant"], crash_at=w["crash_before_event"], partial=w["partial_bytes"])
         bad = judge(files2, old2, {f2: new_inps[x] for x, f2 in zip(files, files2)})
         shutil.rmtree(root, ignore_errors=True)
         ctx.replayed(f["key"], bool(bad), [(short(a), b) for a, b in bad])
@@ -590,7 +650,8 @@ def _run(ctx, hj):
         "scenarios flush / flush-at-exit / delete (3 files) / erasedups (2 files) / unlock of a stale locked file, each in payload "
         "variants; per scenario: captured trace -> Lean discOk; a forked child is killed before EVERY event and after 0,1,n/2,n-1,n "
         "bytes of EVERY write (exhaustive over the scenario's crash points), real disk compared with the model's `crash` and judged: "
-        "every saved file loadable with its old or new commands; then every event is made to raise OSError once; "
+        "every saved file loadable with its old or new commands; then every event — opens for READING included — is made to raise "
+        "OSError once; "
         "non-trivial = every crash/fault point (each is a distinct execution)",
     )
     replay_known(ctx, hj)
@@ -599,6 +660,7 @@ def _run(ctx, hj):
         for v in variants:
             scenario(ctx, hj, sc, v, name, exhaustive_partials=not ctx.quick())
     ctx.exhaustive = True
+    stream_disk_full(ctx, hj)
     stream_sqlite(ctx, ctx.n(6, 40))
     stream_sqlite_ops(ctx)
 
